@@ -342,6 +342,22 @@ impl Strong {
                     (How::AskJoin, Ty::Job) => erased_ask_join(&*b.ask_j, msg, id).await,
                     (How::AskJoin, Ty::A) => rep(b.ask_a.ask(MsgA(msg)).await, id),
                     (How::AskJoin, Ty::B) => rep(b.ask_b.ask(MsgB(msg)).await, id),
+                    (How::AskTL(t, late), ty) => {
+                        let mut fut: std::pin::Pin<Box<dyn std::future::Future<Output = Res> + Send + '_>> = match ty {
+                            Ty::A => Box::pin(async move { rep(b.ask_a.ask_with_timeout(MsgA(msg), world.dur(t)).await, id) }),
+                            Ty::B => Box::pin(async move { rep(b.ask_b.ask_with_timeout(MsgB(msg), world.dur(t)).await, id) }),
+                            Ty::Job => Box::pin(async move { jh(b.ask_j.ask_with_timeout(JobMsg(msg), world.dur(t)).await, id) }),
+                        };
+                        match futures::poll!(fut.as_mut()) {
+                            std::task::Poll::Ready(res) => res,
+                            std::task::Poll::Pending => {
+                                if late > 0 {
+                                    tokio::time::sleep(world.dur(late)).await;
+                                }
+                                fut.await
+                            }
+                        }
+                    }
                     (How::TellC(t), Ty::A) => match tokio::time::timeout(world.dur(t), b.tell_a.tell(MsgA(msg))).await {
                         Ok(r) => unit(r, id),
                         Err(_) => Res::Abandoned,
